@@ -16,7 +16,10 @@ Record case := {
   c_shown : list outcome;            (* the JSON printed by --proposer-config-check, decoded again *)
   c_marshalled : option json;        (* what the implementation marshalled after the lookups *)
   c_ok2 : bool;                      (* unmarshal of the marshalled text succeeded *)
-  c_out2 : list outcome
+  c_out2 : list outcome;
+  c_v1_per_value : bool              (* judge legacy lookups by the per-value reading of docs/execlayer.md
+                                        (set by the harness when known_findings.json registers
+                                        C10-v1-entry-not-fieldwise; see [P_b]) *)
 }.
 
 (* ---- equality on the projected observables ---- *)
@@ -95,25 +98,35 @@ Definition config_eqb (a b : config) : bool :=
   | _, _ => false
   end.
 
+(* the hypothesis of the theorems, checked on every case: relay maps are key-unique *)
+Definition wf_config_b (c : config) : bool :=
+  match c with
+  | CV1 c1 => nodupb (map fst (c1_props c1))
+  | CV2 c2 => nodupb (map fst (e_relays c2))
+              && forallb (fun p => nodupb (map fst (p_relays p))) (e_props c2)
+  end.
+
 (* ---- the model's prediction of the whole pipeline ---- *)
 Definition agree (c : case) : bool :=
   match unmarshal (c_doc c) with
   | None => negb (c_ok1 c)
   | Some cfg0 =>
       c_ok1 c
+      && wf_config_b cfg0
       && option_eqb config_eqb (Some cfg0) (c_parsed c)
       && (let r1 := lookups cfg0 (c_vals c) (c_fbfee c) (c_fbgas c) in
-          list_eqb outcome_eqb (fst r1) (c_out1 c)
-          && list_eqb outcome_eqb (fst r1) (c_shown c)
+          list_eqb outcome_eqb r1 (c_out1 c)
+          && list_eqb outcome_eqb r1 (c_shown c)
           && match c_marshalled c with
              | None => false
              | Some m =>
-                 json_eqb (canon (marshal (snd r1))) (canon m)
+                 (* the lookups left the configuration as it was *)
+                 json_eqb (canon (marshal cfg0)) (canon m)
                  && match unmarshal m with
                     | None => negb (c_ok2 c)
                     | Some cfg2 =>
                         c_ok2 c
-                        && list_eqb outcome_eqb (fst (lookups cfg2 (c_vals c) (c_fbfee c) (c_fbgas c))) (c_out2 c)
+                        && list_eqb outcome_eqb (lookups cfg2 (c_vals c) (c_fbfee c) (c_fbgas c)) (c_out2 c)
                     end
              end)
   end.
@@ -124,16 +137,26 @@ Definition agree (c : case) : bool :=
    document with a meaning must be accepted, every validator must get exactly the settings the
    precedence gives, nothing may panic, what --proposer-config-check prints must be those
    settings, and after marshal -> unmarshal every validator must get the same settings again. *)
-Definition P_b (c : case) : bool :=
+Definition P_with (spec : config -> validator -> N -> N -> outcome) (c : case) : bool :=
   match unmarshal (c_doc c) with
   | None => negb (c_ok1 c)
   | Some cfg =>
       c_ok1 c
-      && list_eqb outcome_eqb (map (fun v => resolve cfg v (c_fbfee c) (c_fbgas c)) (c_vals c)) (c_out1 c)
+      && list_eqb outcome_eqb (map (fun v => spec cfg v (c_fbfee c) (c_fbgas c)) (c_vals c)) (c_out1 c)
       && list_eqb outcome_eqb (c_out1 c) (c_shown c)
       && c_ok2 c
       && list_eqb outcome_eqb (c_out1 c) (c_out2 c)
   end.
+
+(* The legacy format has two documented readings.  The property's own wording ("legacy lookup
+   proposer -> default -> fallback") selects a whole entry: [resolve].  docs/execlayer.md words
+   the precedence per value: [resolve_doc]; the code does not do that (theorem
+   C10_v1_fieldwise_refuted), which is known finding C10-v1-entry-not-fieldwise.  Once that
+   finding is registered in known_findings.json the harness sets [c_v1_per_value] and the cases
+   tagged "v1-fieldwise" are reported as KNOWN-FINDING; until then the whole-entry reading is
+   the oracle.  Version 2 documents are judged identically by both. *)
+Definition P_b (c : case) : bool :=
+  if c_v1_per_value c then P_with resolve_doc c else P_with resolve c.
 
 Definition mismatches (cs : list case) : list N := failing_ids c_id agree cs.
 Definition violations (cs : list case) : list N := failing_ids c_id P_b cs.
